@@ -304,6 +304,7 @@ type linCtx struct {
 	vi        map[string]ssa.Value
 	lenRep    map[ssa.Value]ssa.Value // paired slices: value -> representative (same length)
 	mergeMemo map[*ssa.Phi][]cons
+	wrapAtoms map[string]bool // while set: comparisons on sums that mention these atoms give no facts
 }
 
 func newLinCtx(c *Ctx, fn *ssa.Function) *linCtx {
@@ -939,6 +940,11 @@ func (lc *linCtx) condCons(cond ssa.Value, taken bool) []cons {
 		if !isIntType(x.X.Type()) {
 			return nil
 		}
+		if len(lc.wrapAtoms) > 0 && (lc.mayWrap(x.X) || lc.mayWrap(x.Y)) {
+			// the comparison was made on a sum that may have wrapped around: it says nothing
+			// about the mathematical sum
+			return nil
+		}
 		a, b := lc.of(x.X), lc.of(x.Y)
 		op := x.Op
 		if !taken {
@@ -1209,6 +1215,38 @@ func (lc *linCtx) inductionFacts(p *ssa.Phi) []cons {
 	return out
 }
 
+// mayWrap: v is computed by an addition, subtraction or multiplication one of whose operands
+// mentions an atom of lc.wrapAtoms (an unbounded, caller- or file-controlled quantity).
+func (lc *linCtx) mayWrap(v ssa.Value) bool {
+	for {
+		if cv, ok := v.(*ssa.Convert); ok {
+			v = cv.X
+			continue
+		}
+		break
+	}
+	bo, ok := v.(*ssa.BinOp)
+	if !ok {
+		return false
+	}
+	switch bo.Op {
+	case token.ADD, token.SUB, token.MUL:
+	default:
+		return false
+	}
+	for _, o := range []ssa.Value{bo.X, bo.Y} {
+		for _, a := range lc.of(o).atoms() {
+			if lc.wrapAtoms[a] {
+				return true
+			}
+		}
+		if lc.mayWrap(o) {
+			return true
+		}
+	}
+	return false
+}
+
 // stepCannotOverflow: for i = φ(init, i + s) with a symbolic s >= 0, the value i + s
 // computed on the back edge is bounded by the loop bound B (from the header condition
 // i <= B or i < B) on every back edge: hypotheses at the latch entail i + s <= B.
@@ -1234,6 +1272,12 @@ func (lc *linCtx) stepCannotOverflow(p *ssa.Phi, step lin) bool {
 	}
 	atom := p.Name() + "@" + shortFn(p)
 	next := linAtom(atom).add(step)
+	// the bound must not be established by comparing the (possibly wrapped) sum i + s itself
+	lc.wrapAtoms = map[string]bool{}
+	for _, a := range step.atoms() {
+		lc.wrapAtoms[a] = true
+	}
+	defer func() { lc.wrapAtoms = nil }()
 	for i, e := range p.Edges {
 		pred := h.Preds[i]
 		if !h.Dominates(pred) {
